@@ -73,6 +73,56 @@ fn set_get_reopen(t: SystemTime) -> Result<SystemTime, String> {
     .and_then(|o| o.ok_or_else(|| "GETTER-NONE: creation_time() returned None after save + reopen @ -".to_string()))
 }
 
+/// The time next to other properties, across flushes of the same package
+/// object and a code-page switch that changes the encoded size of the strings
+/// stored before it.
+fn set_get_reopen_busy(t: SystemTime, script: usize) -> Result<SystemTime, String> {
+    catch(|| {
+        let (m, _) = Medium::empty();
+        let mut p = msi::Package::create(msi::PackageType::Installer, m).expect("create");
+        let cp = |id: i32| msi::CodePage::from_id(id).expect("code page");
+        match script {
+            0 => {
+                p.summary_info_mut().set_title("Zo\u{eb}".to_string());
+                p.summary_info_mut().set_creation_time(t);
+                p.flush().expect("flush");
+                p.summary_info_mut().set_codepage(cp(1252));
+            }
+            1 => {
+                p.summary_info_mut().set_codepage(cp(1252));
+                p.summary_info_mut().set_author("\u{e9}\u{e9}\u{e9}".to_string());
+                p.flush().expect("flush");
+                p.summary_info_mut().set_creation_time(t);
+                p.flush().expect("flush");
+                p.summary_info_mut().set_codepage(cp(65001));
+            }
+            2 => {
+                p.summary_info_mut().set_creation_time(t);
+                p.flush().expect("flush");
+                p.summary_info_mut().set_comments("c\u{e9}".repeat(3));
+                p.flush().expect("flush");
+                p.summary_info_mut().clear_comments();
+            }
+            _ => {
+                p.summary_info_mut().set_subject("\u{416}".to_string());
+                p.flush().expect("flush");
+                p.summary_info_mut().set_creation_time(t);
+                p.summary_info_mut().set_codepage(cp(1251));
+                p.flush().expect("flush");
+                p.summary_info_mut().set_creation_time(t);
+            }
+        }
+        let m = p.into_inner().expect("into_inner");
+        let p = msi::Package::open(m).map_err(|e| e.to_string());
+        match p {
+            Ok(p) => Ok(p.summary_info().creation_time()),
+            Err(e) => Err(e),
+        }
+    })
+    .and_then(|r| r.map_err(|e| format!("REOPEN-FAILS: {} @ -", e)))
+    .and_then(|o| o.ok_or_else(|| "GETTER-NONE: creation_time() returned None after flushes, a code-page switch, save + reopen @ -".to_string()))
+}
+
 /// Checks one point; returns (class, violation).
 fn check_point(ns: i128, get: &mut dyn FnMut(SystemTime) -> Result<SystemTime, String>, via: &str) -> (u8, Option<(String, String)>) {
     let t = match from_ns(ns) {
@@ -82,6 +132,7 @@ fn check_point(ns: i128, get: &mut dyn FnMut(SystemTime) -> Result<SystemTime, S
     let r = match get(t) {
         Ok(r) => r,
         Err(p) if p.starts_with("GETTER-NONE") => return (8, Some((format!("time-set-but-getter-returns-none:{}", via), format!("{} ns from the Unix epoch ({}): {}", ns, via, p)))),
+        Err(p) if p.starts_with("REOPEN-FAILS") => return (8, Some((format!("time-set-but-package-does-not-reopen:{}", via), format!("{} ns from the Unix epoch ({}): {}", ns, via, p)))),
         Err(p) => return (8, Some((format!("panic:{}:{}", via, panic_site(&p)), format!("{} ns from the Unix epoch ({}) panicked: {}", ns, via, p)))),
     };
     let rn = to_ns(r);
@@ -285,6 +336,22 @@ pub fn run(tier: Tier) -> i32 {
         rep.violation(v.0, v.1, json!({"kind":"c18","ns": v.2.to_string(), "via":"reopen"}));
     }
     total += reopen_points.len() as u64;
+    // the same through four busier sessions (other properties, flushes of the
+    // same object, code-page switches) at the anchors themselves
+    let busy: Vec<(i128, usize)> = an.iter().flat_map(|(_, a)| (0..4usize).flat_map(move |sc| [(*a, sc), (*a + 100, sc), (*a - 100, sc)])).collect();
+    let rb: Vec<Option<(String, String, i128, usize)>> = busy
+        .par_iter()
+        .map(|(ns, sc)| {
+            let mut g = |t: SystemTime| set_get_reopen_busy(t, *sc);
+            let (_, v) = check_point(*ns, &mut g, "busy-session");
+            v.map(|(s, d)| (s, d, *ns, *sc))
+        })
+        .collect();
+    for v in rb.into_iter().flatten() {
+        rep.violation(v.0, v.1, json!({"kind":"c18","ns": v.2.to_string(), "via":"busy", "script": v.3}));
+    }
+    total += busy.len() as u64;
+    rep.set("busy_session_points", busy.len());
 
     rep.set("states", total);
     rep.set("transitions", total * 2);
@@ -300,7 +367,7 @@ pub fn run(tier: Tier) -> i32 {
     rep.set("lattice_points", lattice_points);
     rep.set("reopen_points", reopen_points.len());
     rep.set("exhaustive", true);
-    rep.set("rule", "for each of 71 anchors (1601, 1970, tick max, i64 max, every 2^k ticks, 3 calendar years): every tick within the radius x every sub-tick nanosecond 0..199 (set, get, set again, monotonic on consecutive points); platform SystemTime extremes; a regular lattice of whole seconds x 5 nanosecond values between 1601 and 60056; anchor neighbourhoods and extremes also through save + reopen. distinct_nontrivial = points inside or beyond the range that the platform can represent (each is a distinct time)");
+    rep.set("rule", "for each of 71 anchors (1601, 1970, tick max, i64 max, every 2^k ticks, 3 calendar years): every tick within the radius x every sub-tick nanosecond 0..199 (set, get, set again, monotonic on consecutive points); platform SystemTime extremes; a regular lattice of whole seconds x 5 nanosecond values between 1601 and 60056; anchor neighbourhoods and extremes also through save + reopen; the anchors also through four sessions with other properties, flushes of the same package object and code-page switches. distinct_nontrivial = points inside or beyond the range that the platform can represent (each is a distinct time)");
     rep.sample(json!({"set_ns": -1, "got_ns": set_get(&mut mk(), from_ns(-1).unwrap()).map(|t| to_ns(t).to_string()).unwrap_or_default()}));
     rep.sample(json!({"set_ns": (LO_NS - 1).to_string(), "got_ns": set_get(&mut mk(), from_ns(LO_NS - 1).unwrap()).map(|t| to_ns(t).to_string()).unwrap_or_default()}));
     rep.finish()
@@ -310,6 +377,7 @@ pub fn replay(doc: &serde_json::Value) {
     let ns: i128 = doc["ns"].as_str().unwrap().parse().unwrap();
     let via = doc["via"].as_str().unwrap_or("memory").to_string();
     let mut pk = mk();
-    let mut g = |t: SystemTime| if via == "memory" { set_get(&mut pk, t) } else { set_get_reopen(t) };
+    let script = doc["script"].as_u64().unwrap_or(0) as usize;
+    let mut g = |t: SystemTime| if via == "memory" { set_get(&mut pk, t) } else if via == "busy" { set_get_reopen_busy(t, script) } else { set_get_reopen(t) };
     println!("{:?}", check_point(ns, &mut g, &via).1);
 }
